@@ -481,8 +481,12 @@ fn cmd_replay(args: &[String]) -> i32 {
     {
         let path = path.clone();
         std::thread::spawn(move || {
-            std::thread::sleep(std::time::Duration::from_secs(runner::HANG_SECS));
-            println!("replay: violation class=hang:no-kernel-event (did not finish within {} s)", runner::HANG_SECS);
+            // processor time, not wall time (see the monitor in runner::run_batch)
+            let c0 = clockseam::process_cpu_ns();
+            while clockseam::process_cpu_ns().saturating_sub(c0) < runner::HANG_SECS * 1_000_000_000 {
+                std::thread::sleep(std::time::Duration::from_millis(500));
+            }
+            println!("replay: violation class=hang:no-kernel-event (did not finish within {} s of processor time)", runner::HANG_SECS);
             let id = path.rsplit('/').next().unwrap_or("").split('-').next().unwrap_or("").to_string();
             println!("VIOLATION property={} replay={}", id, path);
             std::process::exit(1);
